@@ -148,4 +148,4 @@ def body(case):
 
 
 def tests(tier):
-    return [TestSpec("modifiers", lambda f: G.from_gen(gen_case, 1024), body, {"quick": 2500, "thorough": 200000})]
+    return [TestSpec("modifiers", gen_case, body, {"quick": 2500, "thorough": 200000}, tape=1024)]
